@@ -6,49 +6,693 @@ import AnnetModel.Spec.Pattern
 namespace Annet.Pattern.Lemmas
 open Annet.Pattern Annet.Offside
 
+/-! ### characters -/
+
+theorem space_isSpace : pyIsSpace ' ' = true := by decide
+
+theorem charEq_refl (ic : Bool) (a : Char) : charEq ic a a = true := by
+  cases ic <;> simp [charEq]
+
+theorem charEq_false_true {a b : Char} (h : charEq false a b = true) : charEq true a b = true := by
+  simp [charEq] at h
+  subst h
+  exact charEq_refl true a
+
+theorem toNat_ofNat_small (n : Nat) (h : n < 1000) : (Char.ofNat n).toNat = n := by
+  have hv : n.isValidChar := by simp [Nat.isValidChar]; omega
+  simp [Char.ofNat, hv, Char.ofNatAux, Char.toNat]
+
+theorem lower_eq_space {a : Char} (h : lower a = ' ') : a = ' ' := by
+  unfold lower at h
+  split at h
+  · rename_i hr
+    simp only [Bool.and_eq_true, decide_eq_true_eq] at hr
+    have h1 : 65 ≤ a.toNat := hr.1
+    have h2 : a.toNat ≤ 90 := hr.2
+    have h3 : (Char.ofNat (a.toNat + 32)).toNat = a.toNat + 32 :=
+      toNat_ofNat_small _ (by omega)
+    rw [h] at h3
+    have : (' ' : Char).toNat = 32 := by decide
+    omega
+  · exact h
+
+theorem charEq_space {ic : Bool} {a : Char} (ha : pyIsSpace a = false) : charEq ic a ' ' = false := by
+  cases ic
+  · simp [charEq]; rintro rfl; simp [space_isSpace] at ha
+  · simp only [charEq, if_true]
+    have hl : lower ' ' = ' ' := by decide
+    rw [hl]
+    apply Bool.eq_false_iff.mpr
+    intro h
+    have := lower_eq_space (by simpa using h)
+    subst this
+    simp [space_isSpace] at ha
+
+/-! ### words and rows -/
+
+def NoSp (w : List Char) : Prop := ∀ c ∈ w, pyIsSpace c = false
+
+/-- a row that starts with a non-blank character -/
+def Good (r : List Char) : Prop := ∃ c r', r = c :: r' ∧ pyIsSpace c = false
+
+/-- what may follow a word in a normalised row: nothing, or one blank -/
+def Tail (rest : List Char) : Prop := rest = [] ∨ ∃ r, rest = ' ' :: r
+
+theorem joinWords_nil : joinWords [] = [] := rfl
+
+theorem joinWords_single (w : List Char) : joinWords [w] = w := by
+  simp [joinWords, List.intercalate]
+
+theorem joinWords_cons2 (w w2 : List Char) (ws : List (List Char)) :
+    joinWords (w :: w2 :: ws) = w ++ ' ' :: joinWords (w2 :: ws) := by
+  simp [joinWords, List.intercalate]
+
+theorem joinWords_cons_ne (w : List Char) {ws : List (List Char)} (h : ws ≠ []) :
+    joinWords (w :: ws) = w ++ ' ' :: joinWords ws := by
+  cases ws with
+  | nil => exact absurd rfl h
+  | cons w2 ws => exact joinWords_cons2 w w2 ws
+
+theorem good_of_clean_append {w : List Char} (h : cleanWord w) (r : List Char) : Good (w ++ r) := by
+  obtain ⟨hne, hs⟩ := h
+  cases w with
+  | nil => exact absurd rfl hne
+  | cons c w => exact ⟨c, w ++ r, rfl, hs c (by simp)⟩
+
+theorem good_joinWords {w : List Char} (h : cleanWord w) (ws : List (List Char)) :
+    Good (joinWords (w :: ws)) := by
+  cases ws with
+  | nil => rw [joinWords_single]; simpa using good_of_clean_append h []
+  | cons w2 ws => rw [joinWords_cons2]; exact good_of_clean_append h _
+
+theorem not_good_nil : ¬ Good [] := by
+  rintro ⟨c, r, h, _⟩; cases h
+
+theorem joinWords_tail {ws : List (List Char)} (hws : ∀ w ∈ ws, cleanWord w) (x : List Char) :
+    ∃ rest, joinWords (x :: ws) = x ++ rest ∧
+      ((ws = [] ∧ rest = []) ∨ (ws ≠ [] ∧ rest = ' ' :: joinWords ws ∧ Good (joinWords ws))) := by
+  cases ws with
+  | nil => exact ⟨[], by simp [joinWords_single], .inl ⟨rfl, rfl⟩⟩
+  | cons w2 ws =>
+    exact ⟨_, joinWords_cons2 x w2 ws, .inr ⟨by simp, rfl, good_joinWords (hws w2 (by simp)) ws⟩⟩
+
+/-! ### `stripLit` -/
+
+theorem stripLit_self (ic : Bool) (w r : List Char) : stripLit ic w (w ++ r) = some r := by
+  induction w with
+  | nil => simp [stripLit]
+  | cons a w ih => simp [stripLit, charEq_refl, ih]
+
+theorem stripLit_append (ic : Bool) {w : List Char} (hw : NoSp w) (x : List Char) {rest : List Char}
+    (hr : Tail rest) : stripLit ic w (x ++ rest) = (stripLit ic w x).map (· ++ rest) := by
+  induction w generalizing x with
+  | nil => simp [stripLit]
+  | cons a w ih =>
+    have ha : pyIsSpace a = false := hw a (by simp)
+    have hw' : NoSp w := fun c hc => hw c (by simp [hc])
+    cases x with
+    | nil =>
+      rcases hr with rfl | ⟨r, rfl⟩
+      · simp [stripLit]
+      · simp [stripLit, charEq_space ha]
+    | cons b x =>
+      simp only [List.cons_append, stripLit]
+      split
+      · exact ih hw' x
+      · rfl
+
+theorem stripLit_noSp {ic : Bool} {w x r : List Char} (hx : NoSp x) (h : stripLit ic w x = some r) :
+    NoSp r := by
+  induction w generalizing x with
+  | nil => simp [stripLit] at h; subst h; exact hx
+  | cons a w ih =>
+    cases x with
+    | nil => simp [stripLit] at h
+    | cons b x =>
+      simp only [stripLit] at h
+      split at h
+      · exact ih (fun c hc => hx c (by simp [hc])) h
+      · cases h
+
+theorem stripLit_false_true {w r r' : List Char} (h : stripLit false w r = some r') :
+    stripLit true w r = some r' := by
+  induction w generalizing r with
+  | nil => simpa [stripLit] using h
+  | cons a w ih =>
+    cases r with
+    | nil => simp [stripLit] at h
+    | cons b r =>
+      simp only [stripLit] at h ⊢
+      split at h
+      · rename_i hc
+        rw [if_pos (charEq_false_true hc)]
+        exact ih h
+      · cases h
+
+/-! ### `takeWhile`, `sep`, `boundary` -/
+
+theorem takeWhile_word {x : List Char} (hx : NoSp x) {rest : List Char} (hr : Tail rest) :
+    (x ++ rest).takeWhile (fun c => !pyIsSpace c) = x := by
+  induction x with
+  | nil =>
+    rcases hr with rfl | ⟨r, rfl⟩
+    · rfl
+    · simp [space_isSpace]
+  | cons c x ih =>
+    have hc := hx c (by simp)
+    simp [hc]
+    exact ih (fun c hc => hx c (by simp [hc]))
+
+theorem dropWhile_word {x : List Char} (hx : NoSp x) {rest : List Char} (hr : Tail rest) :
+    (x ++ rest).dropWhile (fun c => !pyIsSpace c) = rest := by
+  induction x with
+  | nil =>
+    rcases hr with rfl | ⟨r, rfl⟩
+    · rfl
+    · simp [space_isSpace]
+  | cons c x ih =>
+    have hc := hx c (by simp)
+    simp [hc]
+    exact ih (fun c hc => hx c (by simp [hc]))
+
+theorem sep_nil : sep [] = none := rfl
+
+theorem sep_good {r : List Char} (h : Good r) : sep r = none := by
+  obtain ⟨c, r', rfl, hc⟩ := h
+  simp [sep, hc]
+
+theorem sep_space {r : List Char} (h : Good r) : sep (' ' :: r) = some r := by
+  obtain ⟨c, r', rfl, hc⟩ := h
+  simp [sep, space_isSpace, List.dropWhile, hc]
+
+theorem boundary_tail {rest : List Char} (h : Tail rest) : boundary false rest = true := by
+  rcases h with rfl | ⟨r, rfl⟩
+  · rfl
+  · simp [boundary, space_isSpace]
+
+theorem boundary_good {r : List Char} (h : Good r) : boundary false r = false := by
+  obtain ⟨c, r', rfl, hc⟩ := h
+  simp [boundary, hc]
+
+theorem good_of_noSp_cons {c : Char} {r : List Char} (h : NoSp (c :: r)) (rest : List Char) :
+    Good (c :: r ++ rest) := ⟨c, r ++ rest, rfl, h c (by simp)⟩
+
+/-! ### one step of `matchToks` on a row that starts with a clean word -/
+
+theorem lit_ne_tilde (w : List Char) : (Tok.lit w == Tok.tilde) = false := by
+  simp
+
+theorem star_ne_tilde : (Tok.star == Tok.tilde) = false := by
+  simp
+
+/-- the literal against the first word: nothing, exactly the word, or a proper prefix of it -/
+theorem stripLit_word (ic : Bool) {w x : List Char} (hw : cleanWord w) (hx : NoSp x)
+    {rest : List Char} (hr : Tail rest) :
+    (stripLit ic w x = some [] ∧ stripLit ic w (x ++ rest) = some rest) ∨
+    (stripLit ic w x ≠ some [] ∧
+      (stripLit ic w (x ++ rest) = none ∨ ∃ r', stripLit ic w (x ++ rest) = some r' ∧ Good r')) := by
+  rw [stripLit_append ic hw.2 x hr]
+  cases h : stripLit ic w x with
+  | none => exact .inr ⟨by simp, .inl rfl⟩
+  | some r =>
+    cases r with
+    | nil => exact .inl ⟨rfl, by simp⟩
+    | cons c r =>
+      exact .inr ⟨by simp, .inr ⟨_, rfl, good_of_noSp_cons (stripLit_noSp hx h) rest⟩⟩
+
+theorem lit_last (ic : Bool) {w x : List Char} (hw : cleanWord w) (hx : NoSp x)
+    {rest : List Char} (hr : Tail rest) :
+    matchToks ic false [.lit w] (x ++ rest) = if stripLit ic w x = some [] then some [] else none := by
+  rcases stripLit_word ic hw hx hr with ⟨h1, h2⟩ | ⟨h1, h2 | ⟨r', h2, hg⟩⟩
+  · simp [matchToks, matchOne, h1, h2, boundary_tail hr]
+  · simp [matchToks, matchOne, h1, h2]
+  · simp [matchToks, matchOne, h1, h2, boundary_good hg]
+
+theorem lit_cons (ic : Bool) {w x : List Char} (hw : cleanWord w) (hx : NoSp x)
+    (t : Tok) (m : List Tok) {r : List Char} (hg : Good r) :
+    matchToks ic false (.lit w :: t :: m) (x ++ ' ' :: r) =
+      if stripLit ic w x = some [] then matchToks ic false (t :: m) r else none := by
+  have hr : Tail (' ' :: r) := .inr ⟨r, rfl⟩
+  rcases stripLit_word ic hw hx hr with ⟨h1, h2⟩ | ⟨h1, h2 | ⟨r', h2, hg'⟩⟩
+  · rw [matchToks]
+    simp only [matchOne, h1, h2, Option.map_some, sep_space hg, if_true]
+    cases matchToks ic false (t :: m) r <;> simp
+  · simp [matchToks, matchOne, h1, h2]
+  · simp [matchToks, matchOne, h1, h2, sep_good hg']
+
+theorem lit_cons_end (ic : Bool) {w x : List Char} (hw : cleanWord w) (hx : NoSp x)
+    (t : Tok) (m : List Tok) :
+    matchToks ic false (.lit w :: t :: m) x = none := by
+  have hr : Tail [] := .inl rfl
+  have := stripLit_word ic hw hx hr
+  rw [List.append_nil] at this
+  rcases this with ⟨h1, h2⟩ | ⟨h1, h2 | ⟨r', h2, hg'⟩⟩
+  · simp [matchToks, matchOne, h2, sep_nil]
+  · simp [matchToks, matchOne, h2]
+  · simp [matchToks, matchOne, h2, sep_good hg']
+
+theorem star_last (ic : Bool) {x : List Char} (hx : cleanWord x) {rest : List Char} (hr : Tail rest) :
+    matchToks ic false [.star] (x ++ rest) = some [x] := by
+  have hne : x.isEmpty = false := by
+    cases x with
+    | nil => exact absurd rfl hx.1
+    | cons _ _ => rfl
+  simp [matchToks, matchOne, takeWhile_word hx.2 hr, dropWhile_word hx.2 hr, hne, boundary_tail hr]
+
+theorem star_cons (ic : Bool) {x : List Char} (hx : cleanWord x) (t : Tok) (m : List Tok)
+    {r : List Char} (hg : Good r) :
+    matchToks ic false (.star :: t :: m) (x ++ ' ' :: r) =
+      (matchToks ic false (t :: m) r).map (x :: ·) := by
+  have hr : Tail (' ' :: r) := .inr ⟨r, rfl⟩
+  have hne : x.isEmpty = false := by
+    cases x with
+    | nil => exact absurd rfl hx.1
+    | cons _ _ => rfl
+  rw [matchToks]
+  simp only [matchOne, takeWhile_word hx.2 hr, dropWhile_word hx.2 hr, hne, Bool.false_eq_true,
+    if_false, sep_space hg]
+  cases matchToks ic false (t :: m) r <;> simp
+
+theorem star_cons_end (ic : Bool) {x : List Char} (hx : cleanWord x) (t : Tok) (m : List Tok) :
+    matchToks ic false (.star :: t :: m) x = none := by
+  have hr : Tail [] := .inl rfl
+  have h1 := takeWhile_word hx.2 hr
+  have h2 := dropWhile_word hx.2 hr
+  rw [List.append_nil] at h1 h2
+  have hne : x.isEmpty = false := by
+    cases x with
+    | nil => exact absurd rfl hx.1
+    | cons _ _ => rfl
+  simp [matchToks, matchOne, h1, h2, hne, sep_nil]
+
+theorem tilde_last (ic : Bool) {r : List Char} (hr : r ≠ []) :
+    matchToks ic false [.tilde] r = some [r] := by
+  cases r with
+  | nil => exact absurd rfl hr
+  | cons c r => simp [matchToks, matchOne]
+
+theorem refWords_nil_right (ic : Bool) (t : Tok) (m : List Tok) : refWords ic (t :: m) [] = none := by
+  cases t with
+  | lit w => simp [refWords]
+  | star => simp [refWords]
+  | tilde =>
+    cases m with
+    | nil => simp [refWords]
+    | cons _ _ => simp [refWords]
+
+theorem matchToks_nil_right (ic : Bool) (t : Tok) (m : List Tok) (hwf : WFToks (t :: m)) :
+    matchToks ic false (t :: m) [] = none := by
+  cases t with
+  | lit w =>
+    have hw : cleanWord w := by
+      cases m <;> exact hwf.1
+    obtain ⟨hne, _⟩ := hw
+    cases w with
+    | nil => exact absurd rfl hne
+    | cons a w => simp [matchToks, matchOne, stripLit]
+  | star => simp [matchToks, matchOne]
+  | tilde => simp [matchToks, matchOne]
+
+theorem wf_lit {w : List Char} {more : List Tok} (h : WFToks (.lit w :: more)) :
+    cleanWord w ∧ WFToks more := by
+  cases more <;> simpa [WFToks] using h
+
+theorem wf_star {more : List Tok} (h : WFToks (.star :: more)) : WFToks more := by
+  simpa [WFToks] using h
+
+theorem wf_tilde {more : List Tok} (h : WFToks (.tilde :: more)) : more = [] := by
+  cases more with
+  | nil => rfl
+  | cons _ _ => simp [WFToks] at h
+
+/-! ### the nine lemmas -/
+
 theorem match_is_word_semantics (ic : Bool) (toks : List Tok) (ws : List (List Char))
     (hwf : WFToks toks) (hne : toks ≠ []) (hws : ∀ w ∈ ws, cleanWord w) :
     matchToks ic false toks (joinWords ws) = refWords ic toks ws := by
-  sorry
+  induction toks generalizing ws with
+  | nil => exact absurd rfl hne
+  | cons t more ih =>
+    cases ws with
+    | nil => rw [joinWords_nil, refWords_nil_right, matchToks_nil_right ic t more hwf]
+    | cons x ws =>
+      have hx : cleanWord x := hws x (by simp)
+      have hws' : ∀ w ∈ ws, cleanWord w := fun w hw => hws w (by simp [hw])
+      obtain ⟨rest, hj, hcase⟩ := joinWords_tail hws' x
+      have hr : Tail rest := by
+        rcases hcase with ⟨_, rfl⟩ | ⟨_, rfl, _⟩
+        · exact .inl rfl
+        · exact .inr ⟨_, rfl⟩
+      rw [hj]
+      cases t with
+      | lit w =>
+        obtain ⟨hw, hwf'⟩ := wf_lit hwf
+        cases more with
+        | nil => rw [lit_last ic hw hx.2 hr]; simp [refWords]
+        | cons t' m =>
+          rcases hcase with ⟨rfl, rfl⟩ | ⟨_, rfl, hg⟩
+          · rw [List.append_nil, lit_cons_end ic hw hx.2]; simp [refWords, refWords_nil_right]
+          · rw [lit_cons ic hw hx.2 t' m hg, ih ws hwf' (by simp) hws']; simp [refWords]
+      | star =>
+        have hwf' := wf_star hwf
+        cases more with
+        | nil => rw [star_last ic hx hr]; simp [refWords]
+        | cons t' m =>
+          rcases hcase with ⟨rfl, rfl⟩ | ⟨_, rfl, hg⟩
+          · rw [List.append_nil, star_cons_end ic hx]; simp [refWords, refWords_nil_right]
+          · rw [star_cons ic hx t' m hg, ih ws hwf' (by simp) hws']; simp [refWords]
+      | tilde =>
+        obtain rfl := wf_tilde hwf
+        rw [← hj, tilde_last ic (by
+          intro h0
+          exact not_good_nil (h0 ▸ good_joinWords hx ws))]
+        simp [refWords, joinWords]
+
+theorem matchOne_length {ic : Bool} {t : Tok} {rest rest' : List Char} {caps : List (List Char)}
+    (h : matchOne ic t rest = some (caps, rest')) : caps.length = holes [t] := by
+  cases t with
+  | lit w =>
+    simp only [matchOne, Option.map_eq_some_iff] at h
+    obtain ⟨_, _, h⟩ := h
+    cases h; rfl
+  | star =>
+    simp only [matchOne] at h
+    split at h
+    · cases h
+    · cases h; rfl
+  | tilde =>
+    simp only [matchOne] at h
+    split at h
+    · cases h
+    · cases h; rfl
+
+theorem holes_cons (t : Tok) (more : List Tok) : holes (t :: more) = holes [t] + holes more := by
+  simp only [holes, List.countP_cons, List.countP_nil]; omega
+
+/-- holds for any token list: a `~` that is not last never matches -/
+theorem key_length (ic ell : Bool) (toks : List Tok) (row : List Char)
+    (key : List (List Char))
+    (h : matchToks ic ell toks row = some key) : key.length = holes toks := by
+  induction toks generalizing row key with
+  | nil =>
+    simp only [matchToks] at h
+    split at h
+    · cases h; rfl
+    · cases h
+  | cons t more ih =>
+    rw [matchToks] at h
+    cases hm : matchOne ic t row with
+    | none => simp [hm] at h
+    | some p =>
+      obtain ⟨caps, rest'⟩ := p
+      have hl := matchOne_length hm
+      simp only [hm] at h
+      cases more with
+      | nil =>
+        simp only at h
+        split at h
+        · cases h; rw [hl]
+        · cases h
+      | cons t' m =>
+        simp only at h
+        cases hs : sep rest' with
+        | none => simp [hs] at h
+        | some r2 =>
+          simp only [hs, Option.map_eq_some_iff] at h
+          obtain ⟨k', hk', rfl⟩ := h
+          rw [holes_cons, List.length_append, hl, ih r2 k' hk']
 
 theorem key_is_placeholders (ic ell : Bool) (toks : List Tok) (row : List Char)
     (key : List (List Char)) (hwf : WFToks toks)
-    (h : matchToks ic ell toks row = some key) : key.length = holes toks := by
-  sorry
+    (h : matchToks ic ell toks row = some key) : key.length = holes toks :=
+  (fun _ => key_length ic ell toks row key h) hwf
 
 theorem star_binds_one_word (ic : Bool) (pre post : List Tok) (ws : List (List Char))
     (key : List (List Char)) (h : refWords ic (pre ++ .star :: post) ws = some key) :
     ∃ w, ws[pre.length]? = some w ∧ key[holes pre]? = some w := by
-  sorry
+  induction pre generalizing ws key with
+  | nil =>
+    cases ws with
+    | nil => simp [refWords] at h
+    | cons x ws =>
+      simp only [List.nil_append, refWords, Option.map_eq_some_iff] at h
+      obtain ⟨k', _, rfl⟩ := h
+      exact ⟨x, by simp, by simp [holes]⟩
+  | cons t pre ih =>
+    cases ws with
+    | nil => rw [List.cons_append, refWords_nil_right] at h; cases h
+    | cons x ws =>
+      cases t with
+      | lit w =>
+        simp only [List.cons_append, refWords] at h
+        split at h
+        · obtain ⟨w', h1, h2⟩ := ih ws key h
+          exact ⟨w', by simpa using h1, by rw [holes_cons]; simpa [holes] using h2⟩
+        · cases h
+      | star =>
+        simp only [List.cons_append, refWords, Option.map_eq_some_iff] at h
+        obtain ⟨k', hk', rfl⟩ := h
+        obtain ⟨w', h1, h2⟩ := ih ws k' hk'
+        refine ⟨w', by simpa using h1, ?_⟩
+        rw [holes_cons]
+        have : holes [Tok.star] + holes pre = holes pre + 1 := by simp [holes]; omega
+        rw [this]; simpa using h2
+      | tilde =>
+        cases pre <;> simp [refWords] at h
+
+theorem endsWithTilde_cons {t t' : Tok} {m : List Tok} (h : endsWithTilde (t :: t' :: m) = false) :
+    endsWithTilde (t' :: m) = false := by
+  simpa [endsWithTilde, List.getLast?_cons_cons] using h
 
 theorem prefix_semantics (ic : Bool) (toks : List Tok) (ws more key : List (List Char))
     (hnt : endsWithTilde toks = false)
     (h : refWords ic toks ws = some key) : refWords ic toks (ws ++ more) = some key := by
-  sorry
+  induction toks generalizing ws key with
+  | nil => simpa [refWords] using h
+  | cons t m ih =>
+    have hm : endsWithTilde m = false := by
+      cases m with
+      | nil => simp [endsWithTilde]
+      | cons t' m' => exact endsWithTilde_cons hnt
+    cases ws with
+    | nil => rw [refWords_nil_right] at h; cases h
+    | cons x ws =>
+      cases t with
+      | lit w =>
+        simp only [List.cons_append, refWords] at h ⊢
+        split at h
+        · rename_i hc; rw [if_pos hc]; exact ih ws key hm h
+        · cases h
+      | star =>
+        simp only [List.cons_append, refWords, Option.map_eq_some_iff] at h ⊢
+        obtain ⟨k', hk', rfl⟩ := h
+        exact ⟨k', ih ws k' hm hk', rfl⟩
+      | tilde =>
+        cases m with
+        | nil => simp [endsWithTilde] at hnt
+        | cons _ _ => simp [refWords] at h
 
 theorem word_boundary (ic : Bool) (w r : List Char) (c : Char) (hc : pyIsSpace c = false) :
     matchToks ic false [.lit w] (w ++ c :: r) = none := by
-  sorry
+  simp [matchToks, matchOne, stripLit_self, boundary, hc]
+
+def rtok : Tok → RTok
+  | .lit w => RTok.word w
+  | .star => RTok.hole
+  | .tilde => RTok.hole
+
+theorem format_map (toks : List Tok) (key : List (List Char)) (hk : holes toks ≤ key.length) :
+    format (toks.map rtok) key = some (subst toks key) := by
+  induction toks generalizing key with
+  | nil => simp [format, subst]
+  | cons t m ih =>
+    rw [holes_cons] at hk
+    cases t with
+    | lit w =>
+      simp only [List.map_cons, rtok, format, subst]
+      rw [ih key (by omega)]; rfl
+    | star =>
+      cases key with
+      | nil => simp [holes] at hk
+      | cons k key =>
+        simp only [List.map_cons, rtok, format, subst]
+        rw [ih key (by simp [holes] at hk ⊢; omega)]; rfl
+    | tilde =>
+      cases key with
+      | nil => simp [holes] at hk
+      | cons k key =>
+        simp only [List.map_cons, rtok, format, subst]
+        rw [ih key (by simp [holes] at hk ⊢; omega)]; rfl
+
+theorem makeReverse_eq (pre : List Char) (toks : List Tok) :
+    makeReverse pre toks =
+      if startsWithPrefixTok pre toks then (toks.drop 1).map rtok else .word pre :: toks.map rtok := by
+  have hf : ∀ f : Tok → RTok, (∀ t, f t = rtok t) → ∀ l : List Tok, l.map f = l.map rtok :=
+    fun f h l => List.map_congr_left (fun a _ => h a)
+  unfold makeReverse
+  dsimp only
+  rw [hf _ (fun t => by cases t <;> rfl)]
+  cases toks with
+  | nil => simp [startsWithPrefixTok]
+  | cons t m =>
+    cases t with
+    | lit w =>
+      cases m with
+      | nil => simp [startsWithPrefixTok]
+      | cons t' m' =>
+        simp only [startsWithPrefixTok]
+        by_cases hw : w = pre <;> simp [hw]
+    | star => simp [startsWithPrefixTok]
+    | tilde => simp [startsWithPrefixTok]
 
 theorem reverse_format (pre : List Char) (toks : List Tok) (key : List (List Char))
     (hk : holes toks ≤ key.length) :
     format (makeReverse pre toks) key =
       some (if startsWithPrefixTok pre toks then subst (toks.drop 1) key else pre :: subst toks key) := by
-  sorry
+  rw [makeReverse_eq]
+  split
+  · rename_i hs
+    apply format_map
+    cases toks with
+    | nil => simpa using hk
+    | cons t m =>
+      cases t with
+      | lit w => rw [holes_cons] at hk; simp [holes] at hk ⊢; omega
+      | star => cases m <;> simp [startsWithPrefixTok] at hs
+      | tilde => cases m <;> simp [startsWithPrefixTok] at hs
+  · simp only [format]
+    rw [format_map toks key hk]; rfl
+
+/-- roundtrip, together with the fact that the removal body starts with a non-blank
+(what the induction needs to step over the separating blank) -/
+theorem roundtrip_aux (ic : Bool) (toks : List Tok) (ws key : List (List Char))
+    (hwf : WFToks toks) (hne : toks ≠ []) (hws : ∀ w ∈ ws, cleanWord w)
+    (h : refWords ic toks ws = some key) :
+    matchToks ic false toks (joinWords (subst toks key)) = some key ∧
+      Good (joinWords (subst toks key)) := by
+  induction toks generalizing ws key with
+  | nil => exact absurd rfl hne
+  | cons t more ih =>
+    cases ws with
+    | nil => rw [refWords_nil_right] at h; cases h
+    | cons x ws =>
+      have hx : cleanWord x := hws x (by simp)
+      have hws' : ∀ w ∈ ws, cleanWord w := fun w hw => hws w (by simp [hw])
+      cases t with
+      | lit w =>
+        obtain ⟨hw, hwf'⟩ := wf_lit hwf
+        simp only [refWords] at h
+        split at h
+        · cases more with
+          | nil =>
+            simp only [refWords, Option.some.injEq] at h
+            subst h
+            simp only [subst, joinWords_single]
+            refine ⟨?_, by simpa using good_of_clean_append hw []⟩
+            have := lit_last ic hw hw.2 (rest := []) (.inl rfl)
+            rw [List.append_nil] at this
+            rw [this]
+            have := stripLit_self ic w []
+            rw [List.append_nil] at this
+            simp [this]
+          | cons t' m =>
+            obtain ⟨h1, h2⟩ := ih ws key hwf' (by simp) hws' h
+            have hne' : subst (t' :: m) key ≠ [] := by
+              intro h0; rw [h0] at h2; exact not_good_nil h2
+            simp only [subst]
+            rw [joinWords_cons_ne w hne']
+            refine ⟨?_, good_of_clean_append hw _⟩
+            rw [lit_cons ic hw hw.2 t' m h2, h1]
+            have := stripLit_self ic w []
+            rw [List.append_nil] at this
+            simp [this]
+        · cases h
+      | star =>
+        have hwf' := wf_star hwf
+        simp only [refWords, Option.map_eq_some_iff] at h
+        obtain ⟨k', hk', rfl⟩ := h
+        cases more with
+        | nil =>
+          simp only [refWords, Option.some.injEq] at hk'
+          subst hk'
+          simp only [subst, joinWords_single]
+          refine ⟨?_, by simpa using good_of_clean_append hx []⟩
+          have := star_last ic hx (rest := []) (.inl rfl)
+          rwa [List.append_nil] at this
+        | cons t' m =>
+          obtain ⟨h1, h2⟩ := ih ws k' hwf' (by simp) hws' hk'
+          have hne' : subst (t' :: m) k' ≠ [] := by
+            intro h0; rw [h0] at h2; exact not_good_nil h2
+          simp only [subst]
+          rw [joinWords_cons_ne x hne']
+          refine ⟨?_, good_of_clean_append hx _⟩
+          rw [star_cons ic hx t' m h2, h1]; rfl
+      | tilde =>
+        obtain rfl := wf_tilde hwf
+        simp only [refWords, List.isEmpty_cons, Bool.false_eq_true, if_false, Option.some.injEq] at h
+        subst h
+        have hg : Good (joinWords (x :: ws)) := good_joinWords hx ws
+        simp only [subst, joinWords_single]
+        refine ⟨?_, hg⟩
+        exact tilde_last ic (fun h0 => not_good_nil (h0 ▸ hg))
 
 theorem reverse_roundtrip (ic : Bool) (toks : List Tok) (ws key : List (List Char))
     (hwf : WFToks toks) (hne : toks ≠ []) (hws : ∀ w ∈ ws, cleanWord w)
     (h : refWords ic toks ws = some key) :
-    matchToks ic false toks (joinWords (subst toks key)) = some key := by
-  sorry
+    matchToks ic false toks (joinWords (subst toks key)) = some key :=
+  (roundtrip_aux ic toks ws key hwf hne hws h).1
 
 theorem negate_involutive (pre : List Char) (ws : List (List Char)) (hne : ws ≠ [])
     (hg : ¬ ∃ w rest, ws = pre :: pre :: w :: rest) :
     negate pre (negate pre ws) = ws := by
-  sorry
+  cases ws with
+  | nil => exact absurd rfl hne
+  | cons a l =>
+    cases l with
+    | nil => simp [negate, startsWithPrefix]
+    | cons b l =>
+      by_cases hab : a = pre
+      · subst hab
+        cases l with
+        | nil => simp [negate, startsWithPrefix]
+        | cons c l =>
+          have hb : b ≠ a := by
+            rintro rfl
+            exact hg ⟨c, l, rfl⟩
+          simp [negate, startsWithPrefix, hb]
+      · simp [negate, startsWithPrefix, hab]
+
+theorem matchOne_false_true {t : Tok} {rest : List Char} {p : List (List Char) × List Char}
+    (h : matchOne false t rest = some p) : matchOne true t rest = some p := by
+  cases t with
+  | lit w =>
+    simp only [matchOne, Option.map_eq_some_iff] at h ⊢
+    obtain ⟨r, hr, rfl⟩ := h
+    exact ⟨r, stripLit_false_true hr, rfl⟩
+  | star => simpa [matchOne] using h
+  | tilde => simpa [matchOne] using h
 
 theorem ignorecase_extends (ell : Bool) (toks : List Tok) (row : List Char) (key : List (List Char))
     (h : matchToks false ell toks row = some key) : matchToks true ell toks row = some key := by
-  sorry
+  induction toks generalizing row key with
+  | nil => simpa [matchToks] using h
+  | cons t more ih =>
+    rw [matchToks] at h ⊢
+    cases hm : matchOne false t row with
+    | none => simp [hm] at h
+    | some p =>
+      obtain ⟨caps, rest'⟩ := p
+      simp only [hm] at h
+      simp only [matchOne_false_true hm]
+      cases more with
+      | nil => exact h
+      | cons t' m =>
+        simp only at h ⊢
+        cases hs : sep rest' with
+        | none => simp [hs] at h
+        | some r2 =>
+          simp only [hs, Option.map_eq_some_iff] at h ⊢
+          obtain ⟨k', hk', rfl⟩ := h
+          exact ⟨k', ih r2 k' hk', rfl⟩
 
 end Annet.Pattern.Lemmas
